@@ -229,10 +229,22 @@ def snippet(rng, words, depth=0):
     return base64.b64encode(base64.b64encode(p))
 
 
+def twins(rng, words):
+    """The same encoded payload under two different wrappers (so the same
+    decoded content appears twice, below different ancestors)."""
+    p = payload(rng, words)
+    b = base64.b64encode(p + b" " + payload(rng, words))
+    forms = [b, b'atob("' + b + b'")', b'[System.Convert]::FromBase64String("' + b + b'")', b'cmd /c "echo ' + b + b'"',
+             b'$p=\'' + b + b'\'', b'Base64Decode("' + b + b'")']
+    return rng.sample(forms, 2)
+
+
 def gen_input(rng, words, hot, max_len=2048, exotic=False, bulk=False, sizes=None):
     """words: keyword pool; hot: collision words (preferred)."""
     parts = []
     n = rng.choice([1, 1, 2, 3, 4, 6, 8])
+    if rng.random() < 0.15:
+        parts.extend(twins(rng, (hot * 3 + words) if hot else words))
     for _ in range(n):
         r = rng.random()
         if r < 0.35 and hot:
@@ -499,6 +511,14 @@ def gen_c09(seed, shipped, tier="quick"):
         if not any(o[0] in ("scan", "scan_node", "par_scan") for o in ops):
             i, d = rng.choice(keys)
             ops.append(["scan", "s0", i, d])
+        if rng.random() < 0.3:
+            # some other configuration is built in the same process, possibly before ours
+            oi, oe = gen_filter(rng)
+            if (oi, oe) == (inc, exc):
+                oi, oe = (None, None) if (inc or exc) else (sorted(rng.sample(MODULES, 2)), None)
+            ops.insert(rng.choice([0, 0, rng.randint(0, len(ops))]), ["new_other", oi, oe])
+        if rng.random() < 0.15:
+            ops.insert(0, ["import", rng.choice(MODULES)])  # a helper was imported from a decoder module first
         if sibling is not None and rng.random() < 0.6:
             # fixed-width records processed one after the other, each buffer dropped before the next
             d = next(k[1] for k in keys if k[0] == sibling)
@@ -559,11 +579,11 @@ def gen_c18(seed, shipped, tier="quick"):
         r = rng.random()
         inc, exc = gen_filter(rng)
         if r < 0.22:
-            ops.append(["get_keywords", rng.random() < 0.85])
+            ops.append(["get_keywords", rng.random() < 0.85, rng.random() < 0.5])
         elif r < 0.5:
             ops.append(["get_analyzers", wrap_form(rng, inc), wrap_form(rng, exc)])
         elif r < 0.8:
-            ops.append(["build_registry", rng.random() < 0.85, wrap_form(rng, inc), wrap_form(rng, exc)])
+            ops.append(["build_registry", rng.random() < 0.85, wrap_form(rng, inc), wrap_form(rng, exc), rng.random() < 0.5])
         elif r < 0.92:
             ops.append(["multidecoder", rng.random() < 0.8])
         else:
